@@ -861,6 +861,8 @@ class CSemantics:
             if not (rhs.typ.is_scalar or rhs.typ.is_pointer):
                 self.error("Expected scalar or pointer", rhs.location)
 
+            lhs = self.promote(lhs)
+            rhs = self.promote(rhs)
             common_typ = self.get_common_type(lhs.typ, rhs.typ, location)
             lhs = self.coerce(lhs, common_typ)
             rhs = self.coerce(rhs, common_typ)
@@ -910,13 +912,15 @@ class CSemantics:
             expr = expressions.UnaryOperator(op, a, a.typ, False, location)
         elif op == "-":
             a = self.pointer(a)
+            a = self.promote(a)
             expr = expressions.UnaryOperator(op, a, a.typ, False, location)
         elif op == "~":
             a = self.pointer(a)
             self.ensure_integer(a)
+            a = self.promote(a)
             expr = expressions.UnaryOperator(op, a, a.typ, False, location)
         elif op == "+":
-            expr = self.pointer(a)
+            expr = self.promote(self.pointer(a))
         elif op == "*":
             a = self.pointer(a)
             if not a.typ.is_pointer:
